@@ -277,8 +277,76 @@ func (li *lockInfo) localOf(fn *ssa.Function) map[ssa.Instruction]lockSet {
 // with go, and functions whose address is taken start with the empty set.
 func (li *lockInfo) computeEntries() {
 	cg := li.w.callGraph()
+	// A closure (or function value) handed to a module helper that calls its func parameter
+	// - the withLock(func()) idiom - is entered with the locks the helper holds at that call.
+	// Such a function has no static call site; it gets one pseudo site per helper call, provided
+	// the function value is used for nothing else.
+	type pseudoSite struct {
+		helper *ssa.Function
+		at     ssa.Instruction // the call of the func parameter inside the helper
+	}
+	pseudo := map[*ssa.Function][]pseudoSite{}
+	for _, h := range li.w.ModFuncs {
+		if h.Blocks == nil {
+			continue
+		}
+		for pi, prm := range h.Params {
+			if _, isSig := prm.Type().Underlying().(*types.Signature); !isSig || prm.Referrers() == nil {
+				continue
+			}
+			var calls []ssa.Instruction
+			onlyCalled := true
+			for _, r := range *prm.Referrers() {
+				if c, isCall := r.(*ssa.Call); isCall && c.Common().Value == ssa.Value(prm) {
+					calls = append(calls, c)
+					continue
+				}
+				if _, isDbg := r.(*ssa.DebugRef); isDbg {
+					continue
+				}
+				onlyCalled = false
+			}
+			if !onlyCalled || len(calls) == 0 {
+				continue
+			}
+			for _, cs := range cg.callers[h] {
+				call, isCall := cs.Instr.(*ssa.Call)
+				if !isCall || pi >= len(call.Common().Args) {
+					continue
+				}
+				var target *ssa.Function
+				var holder ssa.Value
+				switch a := call.Common().Args[pi].(type) {
+				case *ssa.MakeClosure:
+					target, _ = a.Fn.(*ssa.Function)
+					holder = a
+				case *ssa.Function:
+					target = a
+				}
+				if target == nil || target.Blocks == nil {
+					continue
+				}
+				if holder != nil && holder.Referrers() != nil {
+					other := false
+					for _, r := range *holder.Referrers() {
+						if r != cs.Instr {
+							if _, isDbg := r.(*ssa.DebugRef); !isDbg {
+								other = true
+							}
+						}
+					}
+					if other {
+						continue
+					}
+				}
+				for _, c := range calls {
+					pseudo[target] = append(pseudo[target], pseudoSite{h, c})
+				}
+			}
+		}
+	}
 	isRoot := func(fn *ssa.Function) bool {
-		if len(cg.callers[fn]) == 0 {
+		if len(cg.callers[fn]) == 0 && len(pseudo[fn]) == 0 {
 			return true
 		}
 		if obj := fn.Object(); obj != nil && obj.Exported() {
@@ -320,6 +388,21 @@ func (li *lockInfo) computeEntries() {
 					for k := range ce {
 						at[k] = true
 					}
+				}
+				if first {
+					acc, first = at, false
+				} else {
+					acc = intersect(acc, at)
+				}
+			}
+			for _, ps := range pseudo[fn] {
+				he := li.entry[ps.helper]
+				if he["*"] {
+					continue
+				}
+				at := li.localOf(ps.helper)[ps.at].clone()
+				for k := range he {
+					at[k] = true
 				}
 				if first {
 					acc, first = at, false
